@@ -160,6 +160,11 @@ func (g *G) NumCandidates(s *sg.Schema, isInt bool, intLimits bool) []jsonx.Num 
 		add(0.5)
 		add(-2.75)
 		add(1.25)
+		// values a single-precision float cannot hold
+		add(1234.5678)
+		add(0.123456789)
+		add(16777217)
+		add(3.141592653589793)
 	}
 	if s.MultipleOf != nil {
 		m := *s.MultipleOf
